@@ -88,6 +88,9 @@ def history_problems(o):
         if not same:
             probs.append(f"generation {k} of `evolution` differs from the population as it stood after cycle {k}")
             break
+    if o.get("evolution_after_utilities") is not None and json.dumps(o["evolution_after_utilities"], default=str) != json.dumps(ev, default=str):
+        k = next((i for i, (a, b) in enumerate(zip(o["evolution_after_utilities"], ev)) if json.dumps(a, default=str) != json.dumps(b, default=str)), "?")
+        probs.append(f"calling the trend utilities altered the recorded history: generation {k} of `evolution` is no longer the population as it stood after cycle {k} (order included)")
     if o.get("best_trend") is not None and o["best"] is not None and o["best_trend"]:
         if xkey(o["best_trend"][-1]) != xkey(o["best"][1]):
             probs.append(f"last entry of best_agent_trend ({o['best_trend'][-1]!r}) != best_solution.cost ({o['best'][1]!r}) [{mm}]")
